@@ -28,24 +28,47 @@ pub fn scenarios(tier: &str) -> Vec<Scenario> {
     deep.push(Step::Mine(W + 1));
     deep.push(Step::Commit);
     deep.extend(block(vec![s_set(0, 0, 1)]));
+    // restarts are real close + open of 28 RocksDB instances (75 ms and more under load), so they
+    // get their own, shallower scenario in the quick tier
+    let alpha_ck: Vec<Macro> = alpha.iter().filter(|m| m.kind != Kind::Dev(2)).cloned().collect();
     vec![
-        Scenario {
-            name: "commit-clear-restart".into(),
-            opts: Opts::new("C03", "ckx"),
-            starts: vec![("S deployed in block 1, nothing committed".into(), base), ("S deployed and committed".into(), committed)],
-            alphabet: alpha.clone(),
-            bounds: Bounds { depth: if thorough { 5 } else { 4 }, dev: vec![2, 2, 1], dev_total: if thorough { 3 } else { 2 } },
-            weight: 4.0,
-            network: "regtest".into(),
-            traces: true,
-        },
         Scenario {
             name: "commit-clear-restart-deep".into(),
             opts: Opts::new("C03", "ckx"),
             starts: vec![("committed at W+2, one uncommitted block".into(), deep)],
+            alphabet: alpha.clone(),
+            bounds: Bounds { depth: if thorough { 4 } else { 2 }, dev: vec![2, 2, 1], dev_total: if thorough { 3 } else { 2 } },
+            weight: 1.0,
+            network: "regtest".into(),
+            traces: true,
+        },
+        Scenario {
+            name: "commit-clear-restart-committed".into(),
+            opts: Opts::new("C03", "ckx"),
+            starts: vec![("S deployed and committed".into(), committed)],
+            alphabet: alpha.clone(),
+            bounds: Bounds { depth: if thorough { 5 } else { 3 }, dev: vec![2, 2, 1], dev_total: if thorough { 3 } else { 2 } },
+            weight: if thorough { 4.0 } else { 2.0 },
+            network: "regtest".into(),
+            traces: true,
+        },
+        Scenario {
+            name: "commit-clear-restart".into(),
+            opts: Opts::new("C03", "ckx"),
+            starts: vec![("S deployed in block 1, nothing committed".into(), base.clone())],
             alphabet: alpha,
-            bounds: Bounds { depth: if thorough { 4 } else { 3 }, dev: vec![2, 2, 1], dev_total: 3 },
-            weight: 2.0,
+            bounds: Bounds { depth: if thorough { 5 } else { 3 }, dev: vec![2, 2, 1], dev_total: 3 },
+            weight: if thorough { 6.0 } else { 2.0 },
+            network: "regtest".into(),
+            traces: true,
+        },
+        Scenario {
+            name: "commit-clear".into(),
+            opts: Opts::new("C03", "ck"),
+            starts: vec![("S deployed in block 1, nothing committed".into(), base)],
+            alphabet: alpha_ck,
+            bounds: Bounds { depth: if thorough { 6 } else { 4 }, dev: vec![2, 2], dev_total: if thorough { 3 } else { 2 } },
+            weight: 4.0,
             network: "regtest".into(),
             traces: true,
         },
